@@ -1,4 +1,4 @@
-"""OPTIMISED-MODE probe, shared by C07 and C08: the interpreter MODE is an input of every property.
+"""OPTIMISED-MODE probe, shared by C07, C08 and C15: the interpreter MODE is an input of every property.
 
 qecsim's README documents `python -O -m qecsim …` (asserts stripped, __debug__ False) as the fast way to run it, so
 "every constructible code" / "the advertised distance" quantify over codes constructed under `python -O` (and `-OO`) as
@@ -17,6 +17,11 @@ sizes the matrices themselves and the outcome of code.validate().  The parent co
       C08  no operator lighter than d is a non-trivial logical (true notion: commutes with every stabilizer, not in their
            span; all Paulis up to weight 2 by brute force, then the independent level search while the stabilizers
            commute), d attained, plus the Lean-verified search / certificate cases on the -O matrices (ctx.case).
+      C15  (probe_c15, job kind 'c15') the child dumps Pauli operators instead of code matrices: path(a, b) for all
+           ordered same-type plaquette pairs (planar: incl. every boundary-virtual plaquette), plaquette(p) and single
+           site writes at every index in a margin of 2 around the lattice; judged by a qecsim-free statement of the
+           geometry: syndrome of the path = its in-lattice end points, documented plaquette support, site writes outside
+           a bounded lattice have no effect / reduce modulo the shape on tori.
 """
 import hashlib
 import json
@@ -79,9 +84,12 @@ def child_main():
     warnings.simplefilter('ignore')
     job = json.load(sys.stdin)
     import qecsim
+    if job.get('kind') == 'c15':
+        records = [c15_describe(it['fam'], tuple(it['args'])) for it in job['items']]
+    else:
+        records = [describe(it['fam'], tuple(it['args']), it.get('dump', False)) for it in job['items']]
     out = {'optimize': sys.flags.optimize, 'debug': bool(__debug__),
-           'qecsim': os.path.realpath(os.path.dirname(qecsim.__file__)),
-           'records': [describe(it['fam'], tuple(it['args']), it.get('dump', False)) for it in job['items']]}
+           'qecsim': os.path.realpath(os.path.dirname(qecsim.__file__)), 'records': records}
     json.dump(out, sys.stdout)
 
 
@@ -125,7 +133,7 @@ def command(flag, fam, args):
             'print(c.stabilizers); c.validate()"'.format(core.REPO, flag, mod, cls, ', '.join(str(a) for a in args)))
 
 
-def run_child(flag, items, timeout=900):
+def run_child(flag, items, timeout=900, kind=None):
     from qv import core
     env = dict(os.environ)
     env['PYTHONPATH'] = os.path.join(core.REPO, 'src') + (os.pathsep + env['PYTHONPATH'] if env.get('PYTHONPATH')
@@ -135,6 +143,8 @@ def run_child(flag, items, timeout=900):
     for k in ('OPENBLAS_NUM_THREADS', 'OMP_NUM_THREADS', 'MKL_NUM_THREADS'):
         env[k] = '1'
     job = {'items': [{'fam': f, 'args': list(a), 'dump': bool(d)} for f, a, d in items]}
+    if kind:
+        job['kind'] = kind
     p = subprocess.run([sys.executable] + ([flag] if flag else []) + [os.path.abspath(__file__)],
                        input=json.dumps(job), env=env, stdout=subprocess.PIPE, stderr=subprocess.PIPE, text=True,
                        timeout=timeout)
@@ -381,6 +391,384 @@ def counterexample(pid, meta):
     if ev:
         return failing_input(pid, flag, rec, describe(fam, args, True), ev[0], ev[1])
     return None
+
+
+# ------------------------------------------------------------------------------------------ C15: paths under -O
+#
+# For C15 the objects the property quantifies over are Pauli operators built by `new_pauli().path / plaquette / site`,
+# so the probe dumps THOSE (not only the code matrices): for every family with paths and every size up to a small bound
+# the bsf of path(a, b) for all ordered same-type pairs (planar: real and ALL boundary-virtual plaquettes), plaquette(p)
+# for every plaquette index in a margin around the lattice and single site writes at every index in a margin (in-lattice
+# and out-of-lattice).  The same function runs in the parent (normal mode); the parent compares the two records and
+# evaluates the property on the -O record with geometry stated here independently of qecsim.
+
+C15_FAMS = ('planar', 'toric', 'rotatedtoric')
+
+
+def c15_sizes(tier):
+    q = tier == 'quick'
+    out = [(fam, (r, c)) for fam in ('planar', 'toric') for r in range(2, (5 if q else 7) + 1)
+           for c in range(2, (5 if q else 7) + 1)]
+    ev = range(2, (6 if q else 8) + 1, 2)
+    return out + [('rotatedtoric', (r, c)) for r in ev for c in ev]
+
+
+def ikey(i):
+    return ','.join(str(int(x)) for x in i)
+
+
+def unkey(s):
+    return tuple(int(x) for x in s.split(','))
+
+
+def c15_geometry(fam, args):
+    """stated independently of qecsim: (plaquettes [real], extra plaquette indices [virtual / margin], same_type(a, b),
+    site indices to write [margin box], canon(site index) -> in-lattice site index | None (no effect) | 'IndexError',
+    support(plaquette index) -> (operator, [site indices, unclipped / unreduced]))"""
+    R, C = args
+    if fam == 'planar':
+        mr, mc = 2 * R - 2, 2 * C - 2
+        box = [(r, c) for r in range(-2, mr + 3) for c in range(-2, mc + 3)]
+        real = [(r, c) for r in range(mr + 1) for c in range(mc + 1) if r % 2 != c % 2]
+        virt = [(r, c) for c in range(0, mc + 1, 2) for r in (-1, mr + 1)] + \
+               [(r, c) for r in range(0, mr + 1, 2) for c in (-1, mc + 1)]
+        plaq_margin = [i for i in box if i[0] % 2 != i[1] % 2]
+
+        def same(a, b):
+            return a[0] % 2 == b[0] % 2
+
+        def canon(i):
+            if i[0] % 2 != i[1] % 2:
+                return 'IndexError'
+            return i if 0 <= i[0] <= mr and 0 <= i[1] <= mc else None
+
+        def support(p):
+            r, c = p
+            return ('Z' if r % 2 == 1 else 'X'), [(r - 1, c), (r + 1, c), (r, c - 1), (r, c + 1)]
+        return real, virt, same, box, canon, support, plaq_margin
+    if fam == 'toric':
+        real = [(l, r, c) for l in (0, 1) for r in range(R) for c in range(C)]
+        box = [(l, r, c) for l in (-1, 0, 1, 2) for r in range(-2, R + 2) for c in range(-2, C + 2)]
+
+        def same(a, b):
+            return a[0] % 2 == b[0] % 2
+
+        def canon(i):
+            return (i[0] % 2, i[1] % R, i[2] % C)
+
+        def support(p):
+            l, r, c = p[0] % 2, p[1], p[2]
+            if l == 0:
+                return 'Z', [(0, r, c), (0, r + 1, c), (1, r, c), (1, r, c + 1)]
+            return 'X', [(1, r, c), (1, r + 1, c), (0, r + 1, c - 1), (0, r + 1, c)]
+        return real, [], same, box, canon, support, box
+    if fam == 'rotatedtoric':
+        real = [(x, y) for y in range(R) for x in range(C)]
+        box = [(x, y) for y in range(-2, R + 2) for x in range(-2, C + 2)]
+
+        def same(a, b):
+            return (a[0] - a[1]) % 2 == (b[0] - b[1]) % 2
+
+        def canon(i):
+            return (i[0] % C, i[1] % R)
+
+        def support(p):
+            x, y = p
+            return ('Z' if (x - y) % 2 == 0 else 'X'), [(x, y), (x, y + 1), (x + 1, y + 1), (x + 1, y)]
+        return real, [], same, box, canon, support, box
+    raise ValueError(fam)
+
+
+def c15_describe(fam, args):
+    """what the current interpreter computes: order of the code's plaquettes, stabilizers, path / plaquette / site bsfs"""
+    def out(f):
+        try:
+            return ''.join('1' if int(x) % 2 else '0' for x in f().to_bsf())
+        except Exception as ex:  # noqa: an exception in one mode only is a difference, and may falsify the property
+            return 'EXC {}: {}'.format(type(ex).__name__, ex)[:120]
+    rec = {'fam': fam, 'args': list(args)}
+    real, virt, same, box, canon, support, plaq_margin = c15_geometry(fam, args)
+    try:
+        code = make_code(fam, args)
+        rec['n'] = int(code.n_k_d[0])
+        order = code._indices if fam == 'toric' else code._plaquette_indices
+        rec['order'] = [ikey(i) for i in order]
+    except Exception as ex:  # noqa
+        rec['exc'] = '{}: {}'.format(type(ex).__name__, ex)[:200]
+        return rec
+    try:
+        rec['stabilizers'] = '/'.join(''.join('1' if int(x) % 2 else '0' for x in r) for r in code.stabilizers)
+    except Exception as ex:  # noqa
+        rec['stabilizers'] = 'EXC {}: {}'.format(type(ex).__name__, ex)[:120]
+    allp = real + virt
+    rec['path'] = {ikey(a) + '>' + ikey(b): out(lambda: code.new_pauli().path(a, b))
+                   for a in allp for b in allp if same(a, b)}
+    rec['plaquette'] = {ikey(p): out(lambda: code.new_pauli().plaquette(p)) for p in plaq_margin}
+    rec['site'] = {op + ikey(i): out(lambda: code.new_pauli().site(op, i)) for i in box for op in 'XZY'}
+    return rec
+
+
+def c15_differences(a, b):
+    """[(what, key)]: first differing key per category"""
+    out = []
+    for k in ('exc', 'n', 'order', 'stabilizers'):
+        if a.get(k) != b.get(k):
+            out.append((k, None))
+    for k in ('path', 'plaquette', 'site'):
+        da, db = a.get(k) or {}, b.get(k) or {}
+        bad = [x for x in da if da[x] != db.get(x)] + [x for x in db if x not in da]
+        if bad:
+            out.append((k, bad[0]))
+    return out
+
+
+def c15_call(fam, args, kind, key):
+    """python expression of the call a dumped value came from"""
+    ctor = '{}({})'.format(CLASSES[fam][1], ', '.join(str(a) for a in args))
+    if kind == 'path':
+        a, b = key.split('>')
+        return '{}.new_pauli().path(({}), ({}))'.format(ctor, a, b)
+    if kind == 'plaquette':
+        return '{}.new_pauli().plaquette(({}))'.format(ctor, key)
+    if kind == 'site':
+        return "{}.new_pauli().site('{}', ({}))".format(ctor, key[0], key[1:])
+    return ctor + '.stabilizers'
+
+
+def c15_problems(rec, limit=3):
+    """C15's statement on one record: [(rank, what, kind, key, extra)], most direct first (rank 0 path, 1 plaquette of
+    the lattice, 2 plaquette index outside the lattice, 3 site write, 4 plaquette order / stabilizer shape)"""
+    fam, args = rec['fam'], tuple(rec['args'])
+    if 'exc' in rec:
+        return [(0, 'constructing the code raises ' + rec['exc'], 'ctor', None, {})]
+    real, virt, same, box, canon, support, plaq_margin = c15_geometry(fam, args)
+    n = rec['n']
+    bad = {'path': [], 'plaquette': [], 'margin': [], 'site': [], 'order': []}
+    order = [unkey(k) for k in rec['order']]
+    if sorted(order) != sorted(real):
+        bad['order'].append(('the plaquettes that carry syndrome bits are not the lattice\'s plaquettes', 'order', None,
+                             {'plaquettes': rec['order'][:40]}))
+    pidx = {p: k for k, p in enumerate(order)}
+    toint = lambda s: int(s, 2)  # noqa: E731  (bit string, qubit 0 first: only used for xor / equality)
+    # ---- sites: every in-lattice site is one qubit (bijection), other indices reduce to one / have no effect / raise
+    vec = {}
+    for i in box:
+        for op in 'XZY':
+            v, c = rec['site'][op + ikey(i)], canon(i)
+            key = op + ikey(i)
+            if c == 'IndexError':
+                if not v.startswith('EXC IndexError'):
+                    bad['site'].append(('site write at a non-site index does not raise IndexError', 'site', key,
+                                        {'result': v}))
+                continue
+            if v.startswith('EXC'):
+                bad['site'].append(('site write raises ' + v[4:], 'site', key, {'result': v}))
+                continue
+            if c == i:
+                x, z = v[:n], v[n:]
+                ok = (x.count('1'), z.count('1')) == {'X': (1, 0), 'Z': (0, 1), 'Y': (1, 1)}[op] and \
+                    (op != 'Y' or x == z)
+                if not ok or len(v) != 2 * n:
+                    bad['site'].append(('site write on an in-lattice site is not that single-qubit operator', 'site', key,
+                                        {'result': v}))
+                vec[(op, i)] = v
+    qubits = {}
+    for (op, i), v in vec.items():
+        if op == 'X' and v.count('1') == 1:
+            q = v.index('1')
+            if q in qubits:
+                bad['site'].append(('two in-lattice sites address the same qubit', 'site', 'X' + ikey(i),
+                                    {'other_site': list(qubits[q]), 'qubit': q}))
+            qubits[q] = i
+    for i in box:
+        for op in 'XZY':
+            v, c, key = rec['site'][op + ikey(i)], canon(i), op + ikey(i)
+            if c == 'IndexError' or v.startswith('EXC') or c == i:
+                continue
+            want = '0' * (2 * n) if c is None else vec.get((op, c))
+            if want is not None and v != want:
+                bad['site'].append((
+                    'site write outside the lattice changes the operator (documented: no effect)' if c is None else
+                    'site write is not invariant under index reduction modulo the lattice shape', 'site', key,
+                    {'result': v, 'expected': want, 'qubits_touched': [k % n for k, ch in enumerate(v) if ch == '1']}))
+
+    def sitevec(op, s):
+        c = canon(s)
+        if c is None:
+            return 0
+        v = vec.get((op, c))
+        return None if v is None or v.startswith('EXC') else toint(v)
+    # ---- plaquettes: documented support (parts outside a bounded lattice have no effect; periodic otherwise)
+    for p in real + virt + [x for x in plaq_margin if x not in set(real) | set(virt)]:
+        if ikey(p) not in rec['plaquette']:
+            continue
+        v = rec['plaquette'][ikey(p)]
+        if v.startswith('EXC'):
+            bad['plaquette'].append(('plaquette operator raises ' + v[4:], 'plaquette', ikey(p), {'result': v}))
+            continue
+        op, sup = support(p)
+        parts = [sitevec(op, s) for s in sup]
+        if None in parts:
+            continue
+        want = 0
+        for x in parts:
+            want ^= x
+        if toint(v) != want:
+            bad['plaquette' if p in pidx else 'margin'].append((
+                'plaquette operator does not have its documented support' if p in pidx else
+                'plaquette operator at an index outside the lattice does not have its documented (clipped / periodic) '
+                'support', 'plaquette', ikey(p),
+                                     {'result': v, 'expected': format(want, '0{}b'.format(2 * n)),
+                                      'documented_sites': [list(s) for s in sup if canon(s) is not None]}))
+    # ---- paths: anticommute with exactly the in-lattice endpoints (w.r.t. this interpreter's stabilizers)
+    S = rec['stabilizers']
+    if S.startswith('EXC'):
+        bad['plaquette'].append(('code.stabilizers raises ' + S[4:], 'stabilizers', None, {}))
+        rows = None
+    else:
+        rows = S.split('/')
+        if len(rows) != len(order) or any(len(r) != 2 * n for r in rows):
+            bad['order'].append(('stabilizers are not one row of 2n bits per plaquette', 'stabilizers', None, {}))
+            rows = None
+    mask = (1 << n) - 1
+    twist = lambda t: ((t & mask) << n) | (t >> n)  # noqa: E731  swap x / z halves
+    refs = []
+    if rows is not None:
+        refs.append(('code.stabilizers', [twist(toint(r)) for r in rows]))
+    doc = []
+    for p in order:
+        op, sup = support(p)
+        parts = [sitevec(op, s) for s in sup]
+        if None in parts:
+            doc = None
+            break
+        w = 0
+        for x in parts:
+            w ^= x
+        doc.append(twist(w))
+    if doc is not None and sorted(order) == sorted(real):
+        refs.append(('the documented plaquette operators', doc))
+    for ref, twisted in refs:
+        for key, v in rec['path'].items():
+            a, b = (unkey(k) for k in key.split('>'))
+            if v.startswith('EXC'):
+                bad['path'].append(('path between same-type plaquettes raises ' + v[4:], 'path', key, {'result': v}))
+                continue
+            if len(v) != 2 * n:
+                bad['path'].append(('path bsf does not have 2n entries', 'path', key, {'result': v}))
+                continue
+            e = toint(v)
+            syn = [bin(e & t).count('1') % 2 for t in twisted]
+            want = [0] * len(order)
+            ca, cb = (canon_plaq(fam, args, a), canon_plaq(fam, args, b))
+            if ca != cb:
+                for x in (ca, cb):
+                    if x in pidx:
+                        want[pidx[x]] ^= 1
+            if syn != want:
+                bad['path'].append((
+                    'path does not anticommute with exactly its in-lattice endpoints (w.r.t. {})'.format(ref), 'path', key,
+                    {'path_bsf': v, 'anticommutes_with': [list(order[k]) for k, s in enumerate(syn) if s],
+                     'in_lattice_endpoints': [list(order[k]) for k, s in enumerate(want) if s]}))
+                if len(bad['path']) >= limit:
+                    break
+        if bad['path']:
+            break
+    out = []
+    for rank, k in enumerate(('path', 'plaquette', 'margin', 'site', 'order')):
+        out += [(rank,) + x for x in bad[k][:limit]]
+    return out
+
+
+def canon_plaq(fam, args, p):
+    R, C = args
+    if fam == 'toric':
+        return (p[0] % 2, p[1] % R, p[2] % C)
+    if fam == 'rotatedtoric':
+        return (p[0] % C, p[1] % R)
+    return p
+
+
+def c15_failing_input(flag, rec, base, what, kind, key, extra):
+    from qv import core
+    fam, args = rec['fam'], rec['args']
+    call = c15_call(fam, args, kind, key) if kind != 'ctor' else '{}({})'.format(CLASSES[fam][1], ', '.join(map(str, args)))
+    d = {'optmode': flag, 'mode': 'python ' + flag, 'code': tag(fam, args), 'family': fam, 'args': list(args),
+         'what': what, 'call': call,
+         'how': 'PYTHONPATH={}/src /venv/bin/python {} -c "from {} import {}; p = {}; print(p if isinstance(p, str) or '
+                'not hasattr(p, \'to_bsf\') else p.to_bsf())"'.format(core.REPO, flag, CLASSES[fam][0], CLASSES[fam][1],
+                                                                     call)}
+    d.update(extra)
+    if base is not None:
+        dif = c15_differences(base, rec)
+        d['differs_from_normal_mode_in'] = [k for k, _ in dif]
+        if kind in ('path', 'plaquette', 'site') and key is not None:
+            d['normal_mode_result'] = (base.get(kind) or {}).get(key)
+    return d
+
+
+def probe_c15(ctx):
+    """C15 under the optimised interpreter: ctx.monitor_fail on every concrete failure (one per mode and family)"""
+    items = c15_sizes(ctx.tier)
+    base = {x: c15_describe(*x) for x in items}
+    summary = {}
+    for flag in flags(ctx.tier):
+        recs = run_child(flag, [(f, a, False) for f, a in items], kind='c15')
+        n_paths, n_diff = 0, 0
+        worst, differing = {}, {}
+        for (fam, args), rec in zip(items, recs):
+            b = base[(fam, args)]
+            ctx.count('optmode{}.c15.family'.format(flag), fam)
+            n_paths += len(rec.get('path') or {})
+            dif = c15_differences(b, rec)
+            n_diff += bool(dif)
+            probs = c15_problems(rec)
+            # one report per mode and family: the most direct statement first (a path before a plaquette before a site
+            # write), the smallest lattice first
+            if probs and (fam not in worst or probs[0][0] < worst[fam][0][0]):
+                worst[fam] = (probs[0], rec, b)
+            if dif and fam not in differing:
+                differing[fam] = (dif, rec, b)
+        for fam in C15_FAMS:
+            key = 'optmode:{}:{}'.format(flag, fam)
+            if fam in worst:
+                (_, what, kind, k, extra), rec, b = worst[fam]
+                args = rec['args']
+                ctx.monitor_fail('under `python {}` {}: {} [{}]'.format(flag, tag(fam, args), what,
+                                                                        c15_call(fam, args, kind, k)
+                                                                        if kind != 'ctor' else 'constructor'),
+                                 c15_failing_input(flag, rec, b, what, kind, k, extra), key=key)
+            elif fam in differing:
+                dif, rec, b = differing[fam]
+                args = rec['args']
+                kind, k = dif[0]
+                what = '{} differ{} between `python {}` and the normal interpreter'.format(
+                    ', '.join(x for x, _ in dif), 's' if len(dif) == 1 else '', flag)
+                extra = {'optimised_result': (rec.get(kind) or {}).get(k)} if k else {}
+                ctx.monitor_fail('under `python {}` {}: {}'.format(flag, tag(fam, args), what),
+                                 c15_failing_input(flag, rec, b, what, kind if k else 'stabilizers', k, extra), key=key)
+        summary[flag] = {'lattices': len(items), 'paths': n_paths, 'lattices_differing_from_normal_mode': n_diff}
+        ctx.evaluations += n_paths
+    # the in-process (normal mode) records get the same evaluation: the geometry stated here is a second, qecsim-free
+    # statement of the property
+    reported = set()
+    for (fam, args), rec in base.items():
+        probs = c15_problems(rec)
+        if probs and fam not in reported:
+            reported.add(fam)
+            _, what, kind, k, extra = probs[0]
+            ctx.monitor_fail('{}: {} [{}]'.format(tag(fam, args), what, c15_call(fam, args, kind, k)
+                                                  if kind != 'ctor' else 'constructor'),
+                             dict({'code': tag(fam, args), 'what': what, 'call': c15_call(fam, args, kind, k)
+                                   if kind != 'ctor' else None}, **extra), key='paths:' + fam)
+    ctx.explored['optimised_mode'] = {
+        'evaluations': sum(v['paths'] for v in summary.values()), 'exhaustive': False, 'modes': summary,
+        'rule': 'child interpreter /venv/bin/python <flag> bound to the same repo: for planar / toric (2..{}) and rotated '
+                'toric (even 2..{}) lattices the bsf of path(a, b) for ALL ordered same-type pairs (planar: incl. every '
+                'boundary-virtual plaquette), plaquette(p) and site(op, i) for every index in a margin of 2 around the '
+                'lattice, and code.stabilizers equal the in-process values; the property (syndrome of the path = in-lattice '
+                'end points, documented plaquette support, off-lattice site writes have no effect / reduce modulo the '
+                'shape) is evaluated on the optimised-mode values'.format(5 if ctx.quick() else 7, 6 if ctx.quick() else 8)}
 
 
 if __name__ == '__main__':
